@@ -16,8 +16,8 @@ Definition fx_add (bits a b : Z) : Z := wrap_s bits (a + b).
 Definition fx_sub (bits a b : Z) : Z := wrap_s bits (a - b).
 Definition fx_sat_add (bits a b : Z) : Z := sat_s bits (a + b).
 Definition fx_sat_sub (bits a b : Z) : Z := sat_s bits (a - b).
-Definition fx_abs (bits a : Z) : option Z := chk_s bits (Z.abs a).
-Definition fx_neg (bits a : Z) : option Z := chk_s bits (- a).
+Definition fx_abs (bits a : Z) : option Z := Some (wrap_s bits (Z.abs a)).   (* self.0.wrapping_abs() *)
+Definition fx_neg (bits a : Z) : option Z := Some (wrap_s bits (- a)).      (* self.0.wrapping_neg() *)
 
 (* to_be_bytes / from_be_bytes of the raw integer (signed types: two's complement) *)
 Definition be_of_s (bits : Z) (x : Z) : list Z := to_be (Z.to_nat (bits / 8)) (wrap_u bits x).
